@@ -14,8 +14,9 @@ pub mod tracing_stubs;
 #[cfg(kani)]
 mod c14_retry;
 
-#[cfg(kani)]
-mod probe;
 
 #[cfg(kani)]
 mod c20_paths;
+
+#[cfg(kani)]
+mod c14_from_env;
